@@ -50,7 +50,8 @@ TRUSTED_BASE = [
 ASSUMPTIONS = [
     "the counter starts at a non-negative value (0 in the code) and only the code of ak/conn_http.py touches _cur_req_id and the lock",
     "header names are ASCII; the caller's headers are a dict of str -> str",
-    "'supplied by the caller' is read as: present in `headers` under the documented spelling 'X-Request-ID' (see c16.notes.md for other spellings)",
+    "'supplied by the caller' is read as: present in `headers` under any ASCII spelling (upper/lower case) of 'X-Request-ID'; with several "
+    "spellings in one dict urllib keeps the last one (theorem supplied_id_last_spelling_sent, oracle: the value sent is one of the caller's)",
 ]
 MODELLED = ("ak/conn_http.py: _HttpConnImpl.__init__ (counter/lock), do_request lines 143-146 and 168-180 (header section, Request construction "
             "as far as the X-request-id header is concerned), _generate_request_id, _HttpConnBase.__init__/get/post/... only through the "
@@ -208,7 +209,8 @@ def _gen_prog(fn):
 
 
 def _do_request_keys(fn):
-    """the `if self._cur_req_id is not None: if KEY not in headers: headers[KEY] = self._generate_request_id()` block"""
+    """the `if self._cur_req_id is not None: if not any(name.lower() == 'key' for name in headers): headers[KEY] =
+    self._generate_request_id()` block (the only shape recognised: since fix 2323115 the test is case-insensitive)"""
     found = []
     for node in ast.walk(fn):
         if isinstance(node, ast.If) and _count_attr(node.test, CTR):
@@ -227,10 +229,28 @@ def _do_request_keys(fn):
         raise ExtractError("do_request: unrecognised id section")
     inner = body[0]
     t = inner.test
-    if not (isinstance(t, ast.Compare) and isinstance(t.left, ast.Constant) and isinstance(t.left.value, str) and len(t.ops) == 1
-            and isinstance(t.ops[0], ast.NotIn) and isinstance(t.comparators[0], ast.Name) and t.comparators[0].id == "headers"):
-        raise ExtractError("do_request: the caller-id test is not `'<key>' not in headers`")
-    test_key = t.left.value
+    bad = ExtractError("do_request: the caller-id test is not `not any(<n>.lower() == '<key>' for <n> in headers)`")
+    if not (isinstance(t, ast.UnaryOp) and isinstance(t.op, ast.Not) and isinstance(t.operand, ast.Call)):
+        raise bad
+    call = t.operand
+    if not (isinstance(call.func, ast.Name) and call.func.id == "any" and len(call.args) == 1 and not call.keywords
+            and isinstance(call.args[0], ast.GeneratorExp) and len(call.args[0].generators) == 1):
+        raise bad
+    gen = call.args[0]
+    comp = gen.generators[0]
+    if not (isinstance(comp.target, ast.Name) and isinstance(comp.iter, ast.Name) and comp.iter.id == "headers"
+            and not comp.ifs and not comp.is_async):
+        raise bad
+    e = gen.elt
+    if not (isinstance(e, ast.Compare) and len(e.ops) == 1 and isinstance(e.ops[0], ast.Eq)
+            and isinstance(e.left, ast.Call) and not e.left.args and not e.left.keywords
+            and isinstance(e.left.func, ast.Attribute) and e.left.func.attr == "lower"
+            and isinstance(e.left.func.value, ast.Name) and e.left.func.value.id == comp.target.id
+            and isinstance(e.comparators[0], ast.Constant) and isinstance(e.comparators[0].value, str)):
+        raise bad
+    test_key = e.comparators[0].value
+    if test_key != test_key.lower():
+        raise ExtractError(f"do_request: lower-cased names are compared with {test_key!r}, which is not lower-case")
     ib = inner.body
     if not (len(ib) == 1 and isinstance(ib[0], ast.Assign) and len(ib[0].targets) == 1):
         raise ExtractError("do_request: unrecognised id assignment")
@@ -265,6 +285,8 @@ def _do_request_keys(fn):
             raise ExtractError("non-ascii header key")
         if k.capitalize() != OBS_KEY:
             raise ExtractError(f"header key {k!r} is not a spelling of {OBS_KEY}")
+    if any(isinstance(n, ast.Name) and n.id == "any" and isinstance(n.ctx, ast.Store) for n in ast.walk(fn)):
+        raise ExtractError("do_request: `any` is rebound")
     return test_key, set_key
 
 
@@ -352,6 +374,9 @@ def gen_consts(repo):
             raise ExtractError("attribute name used as a string (getattr/setattr?)")
         if isinstance(n, (ast.Global, ast.Nonlocal)):
             raise ExtractError("global/nonlocal statement")
+        if (isinstance(n, (ast.FunctionDef, ast.ClassDef)) and n.name == "any") or (isinstance(n, ast.alias) and (n.asname or n.name) == "any") \
+                or (isinstance(n, ast.Name) and n.id == "any" and isinstance(n.ctx, ast.Store)) or (isinstance(n, ast.arg) and n.arg == "any"):
+            raise ExtractError("the builtin `any` is shadowed")
     _check_sharing(tree)
     if not (0 <= w1 <= 64 and 0 <= w2 <= 64):
         raise ExtractError("unreasonable widths")
@@ -743,25 +768,6 @@ def expected_sx(case, obs):
 
 
 # ------------------------------------------------------------------ oracle (the statement, independently of the model)
-_known_cache = None
-
-
-def _respelled_registered():
-    """Other spellings of the header name: enforced ('sent unchanged') only once the finding is registered in
-    KNOWN_FINDINGS.json (open -> KNOWN-FINDING, fixed -> must hold); see c16.notes.md."""
-    global _known_cache
-    if os.environ.get("VERIF_C16_RESPELLED") == "1":     # to try the strict reading without touching KNOWN_FINDINGS.json
-        return True
-    if _known_cache is None:
-        try:
-            here = os.path.dirname(os.path.dirname(os.path.dirname(os.path.abspath(__file__))))
-            data = json.load(open(os.path.join(here, "KNOWN_FINDINGS.json")))
-            _known_cache = any(e.get("property") == ID and e.get("signature") == RESPELLED_SIG for e in data.get("findings", []))
-        except Exception:
-            _known_cache = False
-    return _known_cache
-
-
 def _seqno(idv):
     m = re.search(r"(\d+)$", idv)
     return int(m.group(1)) if m else None
@@ -784,7 +790,6 @@ def oracle(case, obs):
         out.append(("request-raises", f"thread {i}: request raised {e}"))
     for a in obs["anomalies"]:
         out.append((a[0], f"request carries {a[1]}"))
-    strict = _respelled_registered()
     generated = []   # (thread, index, id) of requests whose id must have been generated
     for i, t in enumerate(case["threads"]):
         sent = obs["outs"][i]
@@ -805,10 +810,10 @@ def oracle(case, obs):
                     if v not in resp:
                         out.append(("caller-id-changed", f"thread {i} request {j}: caller supplied {h!r}, sent {v!r}"))
                 elif v not in resp:
-                    if strict:
-                        out.append((RESPELLED_SIG, f"thread {i} request {j}: caller supplied {h!r}, sent {v!r} (and a sequence number was used)"))
-                    # reading 'supplied = documented spelling': counts as 'no id supplied'; in both readings the number
-                    # it used is accounted for here so that one cause gives one signature
+                    # finding caller-id-respelled-replaced (fixed in /repo by 2323115), enforced: HTTP header names are
+                    # case-insensitive, an id under any spelling is the caller's id.  The number the replacement used is
+                    # accounted for here so that one cause gives one signature
+                    out.append((RESPELLED_SIG, f"thread {i} request {j}: caller supplied {h!r}, sent {v!r} (and a sequence number was used)"))
                     generated.append((i, j, v))
             else:
                 if case["en"]:
@@ -874,7 +879,7 @@ _cover = {}
 
 
 def extra_coverage():
-    return {"respelled_caller_ids_enforced": _respelled_registered()}
+    return {"respelled_caller_ids_enforced": True}
 
 
 TECHNIQUE = ("Coq proof: an invariant of a small-step machine (shared lock + counter, per-thread code/registers/output) preserved by every "
